@@ -191,6 +191,8 @@ impl World {
             for t in &TOKENS[2..6] {
                 acc = acc.esdt_balance(format!("str:{t}").as_str(), big().as_str());
             }
+            // a semi-fungible holding, for payments with a non-zero nonce
+            acc = acc.esdt_nft_balance("str:OTHER-123456", 1u64, big().as_str(), Option::<&str>::None);
             st = st.put_account(addr_expr(id).as_str(), acc);
         }
         for id in CONTRACT_IDS {
@@ -749,8 +751,15 @@ mod dump;
 fn main() {
     std::panic::set_hook(Box::new(|_| {}));
     let stdin = std::io::stdin();
-    let stdout = std::io::stdout();
-    let mut out = stdout.lock();
+    // The debug VM prints error messages to stdout (vh_error.rs); keep the protocol on a
+    // private copy of the original stdout and send fd 1 to /dev/null.
+    let mut out = unsafe {
+        use std::os::unix::io::FromRawFd;
+        let keep = libc::dup(1);
+        let devnull = libc::open(b"/dev/null\0".as_ptr() as *const libc::c_char, libc::O_WRONLY);
+        libc::dup2(devnull, 1);
+        std::fs::File::from_raw_fd(keep)
+    };
     let mut w = World::new();
     for line in stdin.lock().lines() {
         let Ok(line) = line else { break };
